@@ -166,40 +166,81 @@ def rule_implicit_wiring(rep: Report, repo: Repo):
     ok = bool(per_path) and all(p_ == want for p_ in per_path)
     rep.check(ok, RULE, "algorithm_parsing::series_computation del_ drops the term from both caches", str(per_path), loc2(d[0]))
     # products: one loop over the two families, each product built from the same family's factors
-    loops = [n for n in own_nodes(sc) if isinstance(n, ast.For) and isinstance(n.target, ast.Name) and isinstance(n.iter, (ast.Tuple, ast.List))
-             and [norm(e) for e in n.iter.elts] == [SER, LOS]]
-    ok = len(loops) == 1
-    if ok:
-        W = loops[0].target.id
-        outer = getattr(loops[0], "_parent", None)
-        P = outer.target.id if isinstance(outer, ast.For) and isinstance(outer.target, ast.Name) and isinstance(outer.iter, ast.Name) else None
-        stores = [st for st in own_nodes(loops[0]) if isinstance(st, ast.Assign) and isinstance(st.targets[0], ast.Subscript) and norm(st.targets[0].value) == W]
-        ok = P is not None and len(stores) == 1 and rtext(stores[0].targets[0].slice, _ea(stores[0], sc)) == f"{P}.name"
-        if ok:
-            v = _canon(_res(stores[0].value, _ea(stores[0], sc)))
-            ok = isinstance(v, ast.Call) and call_name(v) == "cauchy_dot_product" and len(v.args) == 1 and isinstance(v.args[0], ast.Starred) \
-                and {k.arg: norm(k.value) for k in v.keywords} == {"operator": "operator", "hermitian": f"{P}.hermitian"}
-            if ok:
-                fac = v.args[0].value
-                ok = isinstance(fac, (ast.GeneratorExp, ast.ListComp)) and len(fac.generators) == 1 and not fac.generators[0].ifs \
-                    and norm(fac.generators[0].iter) == f"{P}.terms" and norm(fac.elt) in (f"{W}[{norm(fac.generators[0].target)}]", f"{W}[_v0]")
+    def _is_itertools_product(call):
+        nm = call_name(call) or ""
+        if nm in ("itertools.product",):
+            return True
+        for imp in ast.walk(repo.trees["algorithm_parsing"]):
+            if isinstance(imp, ast.ImportFrom) and imp.module == "itertools":
+                if any((al.asname or al.name) == nm and al.name == "product" for al in imp.names):
+                    return True
+        return False
+
+    fam_loops = []  # (loop node, product variable, family variable)
+    for n in own_nodes(sc):
+        if not isinstance(n, ast.For):
+            continue
+        if isinstance(n.target, ast.Name) and isinstance(n.iter, (ast.Tuple, ast.List)) and [norm(e) for e in n.iter.elts] == [SER, LOS]:
+            outer = getattr(n, "_parent", None)
+            if isinstance(outer, ast.For) and isinstance(outer.target, ast.Name):
+                fam_loops.append((n, outer.target.id, n.target.id))
+        elif isinstance(n.target, ast.Name) and isinstance(n.iter, ast.Name):
+            inner = [m for m in n.body if isinstance(m, ast.For) and isinstance(m.target, ast.Name) and isinstance(m.iter, (ast.Tuple, ast.List))
+                     and [norm(e) for e in m.iter.elts] == [SER, LOS]]
+            # counted through the inner loop
+        elif isinstance(n.target, ast.Tuple) and len(n.target.elts) == 2 and all(isinstance(e, ast.Name) for e in n.target.elts) \
+                and isinstance(n.iter, ast.Call) and _is_itertools_product(n.iter) and len(n.iter.args) == 2 and not n.iter.keywords \
+                and isinstance(n.iter.args[1], (ast.Tuple, ast.List)) and [norm(e) for e in n.iter.args[1].elts] == [SER, LOS]:
+            fam_loops.append((n, n.target.elts[0].id, n.target.elts[1].id))
+    if len(fam_loops) != 1:
+        raise AnalysisError(RULE, f"series_computation: the loop that builds the products for both series families was not found ({len(fam_loops)} candidates)")
+    floop, P, W = fam_loops[0]
+    stores = [st for st in own_nodes(floop) if isinstance(st, ast.Assign) and isinstance(st.targets[0], ast.Subscript) and norm(st.targets[0].value) == W]
+    if len(stores) != 1:
+        raise AnalysisError(RULE, "series_computation: the product loop does not store exactly one series per family")
+    v = _canon(_res(stores[0].value, _ea(stores[0], sc)))
+    if not (isinstance(v, ast.Call) and call_name(v) == "cauchy_dot_product" and len(v.args) == 1 and isinstance(v.args[0], ast.Starred)):
+        raise AnalysisError(RULE, f"series_computation: a product is built as `{norm(v)[:70]}`: not understood")
+    fac = v.args[0].value
+    if not (isinstance(fac, (ast.GeneratorExp, ast.ListComp)) and len(fac.generators) == 1 and not fac.generators[0].ifs):
+        raise AnalysisError(RULE, f"series_computation: factors of a product `{norm(fac)[:70]}`: not understood")
+    kw = {k.arg: norm(k.value) for k in v.keywords}
+    ok = rtext(stores[0].targets[0].slice, _ea(stores[0], sc)) == f"{P}.name" and kw == {"operator": "operator", "hermitian": f"{P}.hermitian"} \
+        and norm(fac.generators[0].iter) == f"{P}.terms" and norm(fac.elt) in (f"{W}[{norm(fac.generators[0].target)}]", f"{W}[_v0]")
     rep.check(bool(ok), RULE, "algorithm_parsing::series_computation products are built identically for plain and linear-operator series",
-              "same factor names, operator and hermitian flag", loc2(loops[0] if loops else sc))
+              f"stored under {norm(stores[0].targets[0].slice)}; factors {norm(fac)[:80]}; {kw}", loc2(floop))
     # every computed series gets its linear-operator view: linear_operator_series[term.name] = linear_operator_wrapped(<the series stored under term.name>)
-    reg = [n for n in own_nodes(sc) if isinstance(n, ast.Assign) and isinstance(n.targets[0], ast.Subscript)
-           and norm(n.targets[0].value) == LOS and isinstance(getattr(n, "_parent", None), ast.For)]
-    ok = len(reg) == 1 and isinstance(reg[0].value, ast.Call) and call_name(reg[0].value) == "linear_operator_wrapped" and len(reg[0].value.args) == 1
-    if ok:
-        key = norm(reg[0].targets[0].slice)
-        arg = reg[0].value.args[0]
-        same_loop = [n for n in reg[0]._parent.body if isinstance(n, ast.Assign) and isinstance(n.targets[0], ast.Subscript)
-                     and norm(n.targets[0].value) == SER and norm(n.targets[0].slice) == key]
-        ok = len(same_loop) == 1 and (norm(arg) == f"{SER}[{key}]" or norm(arg) == norm(same_loop[0].value)
-                                      or rtext(arg, _ea(reg[0], sc)) == rtext(same_loop[0].value, _ea(same_loop[0], sc)))
-    rep.check(bool(ok), RULE, "algorithm_parsing::series_computation every computed series gets its linear-operator view", "", loc2(reg[0] if reg else sc))
+    reg_all = [n for n in own_nodes(sc) if isinstance(n, ast.Assign) and isinstance(n.targets[0], ast.Subscript)
+               and norm(n.targets[0].value) == LOS and isinstance(getattr(n, "_parent", None), ast.For)]
+    reg = [n for n in reg_all if norm(n._parent.iter) != f"{SER}.items()"]
+    if len(reg) != 1 or not (isinstance(reg[0].value, ast.Call) and call_name(reg[0].value) == "linear_operator_wrapped" and len(reg[0].value.args) == 1):
+        raise AnalysisError(RULE, "series_computation: the registration of the linear-operator view of a computed series was not found")
+    key = norm(reg[0].targets[0].slice)
+    arg = reg[0].value.args[0]
+    same_loop = [n for n in reg[0]._parent.body if isinstance(n, ast.Assign) and isinstance(n.targets[0], ast.Subscript)
+                 and norm(n.targets[0].value) == SER and norm(n.targets[0].slice) == key]
+    if len(same_loop) != 1:
+        raise AnalysisError(RULE, "series_computation: the store of a computed series next to its linear-operator view was not found")
+    ok = (norm(arg) == f"{SER}[{key}]" or norm(arg) == norm(same_loop[0].value)
+          or rtext(arg, _ea(reg[0], sc)) == rtext(same_loop[0].value, _ea(same_loop[0], sc)))
+    rep.check(bool(ok), RULE, "algorithm_parsing::series_computation every computed series gets its linear-operator view",
+              f"view of `{norm(arg)[:50]}` registered under {key}", loc2(reg[0]))
     ini = [n for n in own_nodes(sc) if isinstance(n, ast.Assign) and norm(n.targets[0]) == LOS]
-    ok = len(ini) == 1 and rtext(ini[0].value, {}) == f"{{_v0: linear_operator_wrapped(_v1) for _v0, _v1 in {SER}.items()}}"
-    rep.check(ok, RULE, "algorithm_parsing::series_computation every input series gets its linear-operator view", "", loc2(ini[0] if ini else sc))
+    if len(ini) != 1:
+        raise AnalysisError(RULE, f"series_computation: `{LOS}` is not assigned exactly once")
+    ini_v = ini[0].value
+    if norm(ini_v) in ("{}", "dict()"):
+        from .sem import dict_filled_by_loop
+        term_loop = reg[0]._parent
+        upto = sc.body.index(term_loop) if term_loop in sc.body else len(sc.body)
+        ini_v = dict_filled_by_loop(sc.body[:upto], LOS)
+        if ini_v is None:
+            raise AnalysisError(RULE, f"series_computation: how `{LOS}` is filled from the input series is not understood")
+    ini_t = rtext(ini_v, {})
+    if not (isinstance(ini_v, ast.DictComp) and f"{SER}.items()" in ini_t):
+        raise AnalysisError(RULE, f"series_computation: `{LOS}` starts as `{ini_t[:70]}`: not a table over the input series")
+    ok = ini_t == f"{{_v0: linear_operator_wrapped(_v1) for _v0, _v1 in {SER}.items()}}"
+    rep.check(ok, RULE, "algorithm_parsing::series_computation every input series gets its linear-operator view", ini_t[:100], loc2(ini[0]))
     from .e9 import exec_scope_table, rule_exec_scope
     entries, user_last, es_node, has_user = exec_scope_table(repo, RULE)
     es = [es_node]
